@@ -70,7 +70,7 @@ Definition dec_big (neg l3 l2 l1 l0 : Z) : Z :=
   if Z.eqb neg 1 then - m else m.
 
 Definition enabled_of (cfg : Z) : list String.string :=
-  if Z.eqb cfg 0 then cargo_default ++ serde_features
+  if Z.eqb cfg 0 then cargo_default ++ serde_features ++ cargo_serde
   else [].
 
 Definition in_rng (r : option (Z * Z)) (z : Z) : bool :=
